@@ -223,6 +223,24 @@ def r5_2(run):
                   and any(callee_name(c) == "init_results" for c in calls(n)) for n in ast.walk(iar.node))
     run.ob("init_all_result_tables|all-components", ok_loop,
            "init_all_result_tables calls init_results for every entry of net['component_list']", run.where(iar, iar.node))
+    # ... and every component's init_results gets to init_results_element on every path (no early exit that keeps an old table)
+    n_ir = 0
+    for ci_ in ix.all_classes():
+        m_ = ci_.methods.get("init_results")
+        if m_ is None or ".test." in m_.module:
+            continue
+        from ..arrnf import ANF as _ANF0
+        r_ = _ANF0(ix, m_, strip=False).run()
+        resets = [e for e in r_.events if e.kind == "call" and (
+            (e.term[1][0] == "f" and e.term[1][1].endswith(".init_results_element")) or
+            (e.term[1][0] == "attr" and e.term[1][2] == "init_results" and e.term[1][1][0] == "call" and e.term[1][1][1] == ("x", "builtins.super")))]
+        n_ir += 1
+        run.analysed(m_)
+        run.ob("%s.init_results|resets-on-every-path" % ci_.name, any(not e.cond for e in resets),
+               "%s.init_results re-creates the result table unconditionally (init_results_element / super().init_results under no condition)" % ci_.name,
+               run.where(m_, m_.node), detail="; ".join(str([(U(c_) if isinstance(c_, ast.AST) else str(c_)[:60], p_) for c_, p_ in e.cond]) for e in resets)[:200] or "no reset call")
+    if not n_ir:
+        raise AnalysisError("no init_results method found in the component classes")
     ire = ix.func("pandapipes.component_models.component_toolbox.init_results_element")
     # on every path the store that is in effect at the end is a DataFrame of NaN indexed like the element table
     from ..arrnf import ANF as _ANF, key as _tkey, show as _tshow
